@@ -3,3 +3,4 @@ import Proofs.Diag
 import Proofs.XReal
 import Proofs.Bonferroni
 import Proofs.DepGraph
+import Proofs.EnvPersist
